@@ -87,6 +87,23 @@ void do_forest(Ctx<W> &x) {
     std::cout << "onforest"; for (auto &e : x.edges) std::cout << " " << (fi.is_on_forest(e) ? 1 : 0); std::cout << "\n";
     std::cout << "dim " << fi.cycle_space_dimension() << "\n";
     std::cout << "k " << fi.weak_connected_components() << "\n";
+    // the index is a value: a copy-constructed index and an index ASSIGNED over one that was built for a
+    // different graph (other dimension / component count) must answer exactly like the original
+    typename Ctx<W>::Graph tri;
+    for (int i = 0; i < 5; i++) add_vertex(tri);
+    add_edge(0, 1, tri); add_edge(1, 2, tri); add_edge(2, 0, tri); add_edge(2, 3, tri); add_edge(3, 0, tri);
+    parmcb::ForestIndex<typename Ctx<W>::Graph> assigned(tri);
+    assigned = fi;
+    parmcb::ForestIndex<typename Ctx<W>::Graph> copied(fi);
+    const char *tags[2] = {"assigned", "copied"};
+    const parmcb::ForestIndex<typename Ctx<W>::Graph> *objs[2] = {&assigned, &copied};
+    for (int t = 0; t < 2; t++) {
+        const auto &o = *objs[t];
+        std::cout << tags[t] << " index"; for (auto &e : x.edges) std::cout << " " << o(e);
+        std::cout << " rev"; for (std::size_t i = 0; i < x.m; i++) std::cout << " " << x.id(o(i));
+        std::cout << " onforest"; for (auto &e : x.edges) std::cout << " " << (o.is_on_forest(e) ? 1 : 0);
+        std::cout << " dim " << o.cycle_space_dimension() << " k " << o.weak_connected_components() << "\n";
+    }
 }
 
 template<class W>
